@@ -85,6 +85,7 @@ type VC struct {
 	specDepth int
 	quants []*quantRec
 	refArr map[string]bool
+	curFamily string
 	writes []writeRec
 	curBlock *ssa.BasicBlock
 	macros []string
